@@ -309,6 +309,14 @@ Section OneTrie.
             rewrite andb_false_r. reflexivity. }
         rewrite HR. reflexivity.
   Qed.
+  Lemma msess_tail_ok c v : In c (subtrees r) -> msess_tail m vs (tree_id c) v = Ok (sess_tail c v).
+  Proof.
+    intros Hsub. unfold msess_tail, sess_tail. destruct v; [|reflexivity].
+    destruct c as [id ord tail eidx|id big step pfx fc ch]; cbn [tree_id].
+    - rewrite (node_leaf id ord tail eidx Hsub). reflexivity.
+    - destruct (node_inner _ _ _ _ _ _ Hsub) as (ith & wsz & from & to & bm & plen & pfxb & Hgn & _).
+      rewrite Hgn. reflexivity.
+  Qed.
 End OneTrie.
 
 (* ---------- GetID and Get from the message = GetID and Get on the tree ---------- *)
@@ -392,4 +400,60 @@ Proof.
     destruct (nth_error elts ord) as [v|] eqn:En; [|apply nth_error_None in En; lia].
     rewrite (nth_error_nth _ _ [] En). reflexivity.
   - rewrite HL. reflexivity.
+Qed.
+
+(* searchID from the message = searchID on the tree (ids) *)
+Theorem msearchid_searchid o keys vals T m vs q fuel :
+  build o keys vals = Ok T -> encode_trie T = Val m -> init_vars m = Val vs ->
+  trie_height T <= fuel ->
+  msearchid (S fuel) m vs q = Ok (let '(l, e, rr) := searchid T q in (oid l, oid e, oid rr)).
+Proof.
+  intros Hb Em Ev Hf. unfold trie_height in Hf.
+  destruct (t_root T) as [r|] eqn:Hr.
+  2:{ unfold encode_trie in Em. rewrite Hr in Em. injection Em as <-. unfold msearchid, searchid. rewrite Hr. reflexivity. }
+  pose proof (Hem T r Hr m Em) as Hm.
+  destruct (encode_msg_fields _ _ _ _ _ Hm) as (Hnt & Hlp). specialize (Hnt (flat_nodes_ne r)).
+  pose proof (built_ids_ok o keys vals T r Hb Hr) as I.
+  pose proof (root_id0 o keys vals T r Hb Hr) as Hid0.
+  destruct (build_ok _ _ _ _ Hb) as [[_ ->]|(r' & lidx & B)]; [discriminate|].
+  assert (r' = r) as -> by (pose proof (bt_root _ _ _ _ _ _ B) as H; rewrite Hr in H; inversion H; reflexivity).
+  pose proof (root_inv o keys vals (bt_sorted _ _ _ _ _ _ B) (bt_nonempty _ _ _ _ _ _ B)) as SI.
+  pose proof (trie_of_has_kids o r _ (bt_trie _ _ _ _ _ _ B) SI) as Hk.
+  unfold msearchid, searchid. rewrite Hr. destruct (m_nodetype m) as [nt|]; [|congruence]. cbv zeta.
+  pose proof (msearch_down_f o keys vals T r Hb Hr m vs Em Ev (nibs q) (nibs_lt q) (S fuel) r 0 None None (subtrees_self r)) as Hmd.
+  rewrite Hid0 in Hmd. rewrite Hmd.
+  pose proof (fsearch_down_sim r (nibs q) (length (nibs q)) I r (subtrees_self r) (S fuel) 0 None None ltac:(lia)) as Hs.
+  rewrite Hid0 in Hs. cbn [oid option_map] in Hs. rewrite Hs. unfold bind.
+  pose proof (search_down_from (nibs q) (length (nibs q)) r 0 None None) as [Hf1 Hf2].
+  pose proof (search_down_seq o q r _ (bt_trie _ _ _ _ _ _ B) SI (Nat.le_0_l _) None None) as Hseq.
+  change (s_from (root_subset o keys vals)) with 0 in Hseq.
+  destruct (search_down (nibs q) (length (nibs q)) r 0 None None) as [[lc eq] rc] eqn:Esd.
+  unfold seq in Hseq. cbn [fst snd] in Hf1, Hf2, Hseq. cbn [sres_ids].
+  assert (forall x, In x (subtrees r) -> mrightmost (S fuel) m vs (tree_id x) = Ok (tree_id (rightmost x))) as HRm.
+  { intros x Hx. rewrite (mrightmost_f o keys vals T r Hb Hr m vs Em Ev (S fuel) x Hx).
+    rewrite (frightmost_sim r I x Hx (has_kids_sub r x Hk Hx)); [reflexivity|]. pose proof (height_sub r x Hx). lia. }
+  assert (forall x, In x (subtrees r) -> mleftmost (S fuel) m vs (tree_id x) = Ok (tree_id (leftmost x))) as HLm.
+  { intros x Hx. rewrite (mleftmost_f o keys vals T r Hb Hr m vs Em Ev (S fuel) x Hx).
+    rewrite (fleftmost_sim r I x Hx (has_kids_sub r x Hk Hx)); [reflexivity|]. pose proof (height_sub r x Hx). lia. }
+  assert (forall x, from_tree r None x -> match x with Some y => In y (subtrees r) | None => True end) as Hin.
+  { intros [y|] H; [cbn in H; destruct H as [H|H]; [discriminate|exact H]|exact Logic.I]. }
+  pose proof (Hin lc Hf1) as Hlc. pose proof (Hin rc Hf2) as Hrc.
+  destruct eq as [[[c i] v]|]; cbn [ids_of].
+  - assert (In c (subtrees r)) as Hc by (eapply descend_subtree; symmetry; exact Hseq).
+    destruct (i <=? length (nibs q)).
+    + assert ((match m_leafpfx m with
+               | Some _ => match msess_tail m vs (tree_id c) v with
+                           | Ok t => Ok (bytes_cmp (skipn (i / 2) q) match t with Some t0 => t0 | None => [] end)
+                           | Err e => Err e end
+               | None => Ok Eq end) =
+              Ok (if t_leafpfx T then bytes_cmp (skipn (i / 2) q) match sess_tail c v with Some t => t | None => [] end else Eq)) as Hcmp.
+      { rewrite (msess_tail_ok o keys vals T r Hb Hr m vs Em Ev c v Hc).
+        destruct (t_leafpfx T) eqn:Elp.
+        - destruct (m_leafpfx m) as [lp|] eqn:Emlp; [reflexivity|]. destruct Hlp as [Hlp _]. discriminate (Hlp eq_refl).
+        - destruct (m_leafpfx m) as [lp|] eqn:Emlp; [|reflexivity]. destruct Hlp as [_ Hlp]. discriminate (Hlp eq_refl). }
+      rewrite Hcmp.
+      destruct (if t_leafpfx T then bytes_cmp (skipn (i / 2) q) match sess_tail c v with Some t => t | None => [] end else Eq);
+        destruct lc as [ml|], rc as [mr|]; cbn [oid option_map]; rewrite ?HRm, ?HLm by assumption; reflexivity.
+    + destruct lc as [ml|], rc as [mr|]; cbn [oid option_map]; rewrite ?HRm, ?HLm by assumption; reflexivity.
+  - destruct lc as [ml|], rc as [mr|]; cbn [oid option_map]; rewrite ?HRm, ?HLm by assumption; reflexivity.
 Qed.
